@@ -5,6 +5,9 @@ import (
 	"errors"
 	"fmt"
 	"io"
+	"os"
+	"os/exec"
+	"path/filepath"
 	"testing"
 	"time"
 
@@ -29,6 +32,55 @@ type c12Enc struct {
 	// Between: with the first segmentation, another complete encryption (and
 	// a decryption of its result) runs between two Writes
 	Between bool `json:"between,omitempty"`
+	// CopyFrom: a fourth encryption is fed with io.Copy from a source that
+	// delivers the plaintext on this schedule (data and end-of-file in one
+	// call, one byte at a time, ...)
+	CopyFrom hx.Delivery `json:"copyFrom"`
+}
+
+type onlyReader struct{ r io.Reader }
+
+func (o onlyReader) Read(p []byte) (int, error) { return o.r.Read(p) }
+
+// c12EncryptCopy encrypts by io.Copy from a scheduled source.
+func c12EncryptCopy(c c12Enc) ([]byte, error) {
+	p := hx.ThePool()
+	plain := hx.PRG(11, c.PlainLen)
+	var recs []age.Recipient
+	for _, r := range c.Recs {
+		recs = append(recs, p.Recipient(r))
+	}
+	var out bytes.Buffer
+	var vio error
+	hx.WithTape(&hx.Tape{Seed: c.TapeSeed}, func() {
+		var dst io.Writer = &out
+		var aw io.WriteCloser
+		if c.Armor {
+			aw = armor.NewWriter(&out)
+			dst = aw
+		}
+		w, err := age.Encrypt(dst, recs...)
+		if err != nil {
+			vio = pbt.Failf("C12/encrypt-failed", "Encrypt: %v", err)
+			return
+		}
+		src, _ := hx.NewReader(plain, c.CopyFrom)
+		n, err := io.Copy(w, onlyReader{src})
+		if err != nil || n != int64(len(plain)) {
+			vio = pbt.Failf("C12/short-count", "io.Copy of %d plaintext bytes into the encrypting writer (source delivery %+v) returned (%d, %v)", len(plain), c.CopyFrom, n, err)
+			return
+		}
+		if err := w.Close(); err != nil {
+			vio = pbt.Failf("C12/encrypt-failed", "Close: %v", err)
+			return
+		}
+		if aw != nil {
+			if err := aw.Close(); err != nil {
+				vio = pbt.Failf("C12/encrypt-failed", "armor Close: %v", err)
+			}
+		}
+	})
+	return out.Bytes(), vio
 }
 
 // encryptObserved encrypts under a tape and checks full counts and hold-back
@@ -131,7 +183,7 @@ func c12EncryptObserved(c c12Enc, segs []int, between bool) ([]byte, error) {
 
 func c12CheckEnc(c c12Enc, st *stats.Run) error {
 	nontrivial := chunksOf(c.PlainLen) >= 2
-	st.Case(nontrivial, stats.HashJSON(c), "enc", "enc:"+chunkLabel(c.PlainLen), "enc:"+segLabel(c.Segs1, c.PlainLen), "enc:"+segLabel(c.Segs2, c.PlainLen), fmt.Sprintf("enc:armor=%v", c.Armor), fmt.Sprintf("enc:other-encryption-in-between=%v", c.Between))
+	st.Case(nontrivial, stats.HashJSON(c), "enc", "enc:"+chunkLabel(c.PlainLen), "enc:"+segLabel(c.Segs1, c.PlainLen), "enc:"+segLabel(c.Segs2, c.PlainLen), fmt.Sprintf("enc:armor=%v", c.Armor), fmt.Sprintf("enc:other-encryption-in-between=%v", c.Between), "enc:copy-from="+c.CopyFrom.Mode)
 	st.Sample("encrypt-segmentations", c)
 	a, err := c12EncryptObserved(c, c.Segs1, c.Between)
 	if err != nil {
@@ -144,6 +196,15 @@ func c12CheckEnc(c c12Enc, st *stats.Run) error {
 	one, err := c12EncryptObserved(c, nil, false)
 	if err != nil {
 		return err
+	}
+	if c.CopyFrom.Mode != "" {
+		cp, err := c12EncryptCopy(c)
+		if err != nil {
+			return err
+		}
+		if !bytes.Equal(cp, one) {
+			return pbt.Failf("C12/output-depends-on-segmentation", "ciphertext of %d plaintext bytes fed by io.Copy from a source delivering as %+v differs from the one of a single Write (lengths %d and %d, first difference %d)", c.PlainLen, c.CopyFrom, len(cp), len(one), firstDiff(cp, one))
+		}
 	}
 	if !bytes.Equal(a, b) || !bytes.Equal(a, one) {
 		return pbt.Failf("C12/output-depends-on-segmentation", "ciphertext differs between write segmentations %v, %v and a single write (lengths %d, %d, %d; first difference %d / %d)", c.Segs1, c.Segs2, len(a), len(b), len(one), firstDiff(a, b), firstDiff(a, one))
@@ -413,6 +474,126 @@ func c12CheckPipe(c c12Pipe, st *stats.Run) error {
 	}
 }
 
+// through the age command: the same input arriving on standard input in different pieces
+type c12CLI struct {
+	PlainLen int    `json:"plainLen"`
+	Armor    bool   `json:"armor"`
+	Damage   string `json:"damage"` // "" | "trunc" | "tail"
+	Pieces   []int  `json:"pieces"` // sizes of the first writes (each followed by a pause); the rest goes in one write
+	Encrypt  bool   `json:"encrypt"`
+}
+
+func runCLIPaced(dir string, env []string, data []byte, pieces []int, bin string, args ...string) (int, []byte, string) {
+	cmd := exec.Command(bin, args...)
+	cmd.Dir = dir
+	cmd.Env = env
+	stdin, err := cmd.StdinPipe()
+	if err != nil {
+		return -3, nil, err.Error()
+	}
+	var so, se bytes.Buffer
+	cmd.Stdout, cmd.Stderr = &so, &se
+	if err := cmd.Start(); err != nil {
+		return -3, nil, err.Error()
+	}
+	go func() {
+		rest := data
+		for _, n := range pieces {
+			if n > len(rest) {
+				n = len(rest)
+			}
+			if _, err := stdin.Write(rest[:n]); err != nil {
+				break
+			}
+			rest = rest[n:]
+			time.Sleep(25 * time.Millisecond)
+		}
+		stdin.Write(rest)
+		stdin.Close()
+	}()
+	done := make(chan error, 1)
+	go func() { done <- cmd.Wait() }()
+	select {
+	case err := <-done:
+		code := 0
+		if err != nil {
+			code = -1
+			if ee, ok := err.(*exec.ExitError); ok && ee.ExitCode() > 0 {
+				code = ee.ExitCode()
+			}
+		}
+		return code, so.Bytes(), se.String()
+	case <-time.After(60 * time.Second):
+		cmd.Process.Kill()
+		<-done
+		return -2, nil, "timeout"
+	}
+}
+
+func c12CheckCLI(c c12CLI, st *stats.Run) error {
+	bin := os.Getenv("VERIF_BIN")
+	if bin == "" {
+		return nil
+	}
+	p := hx.ThePool()
+	dir, err := os.MkdirTemp(".", "c12cli-")
+	if err != nil {
+		return pbt.Failf("C12/harness", "%v", err)
+	}
+	dir, _ = filepath.Abs(dir)
+	defer os.RemoveAll(dir)
+	plain := hx.PRG(31, c.PlainLen)
+	os.WriteFile(filepath.Join(dir, "key.txt"), []byte(refage.Bech32Encode("AGE-SECRET-KEY-", p.X25519[0])+"\n"), 0o600)
+	env := []string{"PATH=/nonexistent", "HOME=" + dir}
+	st.Case(len(c.Pieces) > 0, stats.HashJSON(c), "cli-delivery", fmt.Sprintf("cli-delivery:armor=%v", c.Armor), "cli-delivery:damage="+c.Damage, fmt.Sprintf("cli-delivery:encrypt=%v", c.Encrypt), fmt.Sprintf("cli-delivery:first-piece=%d", append(c.Pieces, 0)[0]))
+	st.Sample("cli-delivery", c)
+	if c.Encrypt {
+		args := []string{"-r", refage.Bech32Encode("age", refage.X25519Public(p.X25519[0]))}
+		if c.Armor {
+			args = append(args, "-a")
+		}
+		code, out, stderr := runCLIPaced(dir, env, plain, c.Pieces, filepath.Join(bin, "age"), args...)
+		if code < -1 {
+			st.Label("inconclusive-timeout")
+			return nil
+		}
+		got, derr, _ := decryptLib(out, hx.Delivery{Mode: "whole"}, []int{-1}, c.Armor, p.X25519Identity(0))
+		if code != 0 || derr != nil || !bytes.Equal(got, plain) {
+			return pbt.Failf("C12/result-depends-on-schedule", "age -r ... with %d plaintext bytes arriving on standard input in pieces %v: exit %d (%s), output decrypts: %v", len(plain), c.Pieces, code, trunc([]byte(stderr)), derr)
+		}
+		return nil
+	}
+	f, _ := c02Base(c.PlainLen, 31)
+	plain = hx.PRG(31, c.PlainLen)
+	file := f.Bytes()
+	if c.Damage == "trunc" {
+		file = file[:len(file)-1]
+	}
+	if c.Armor {
+		file = []byte(refage.Armor(file))
+		if c.Damage == "tail" {
+			file = append(file, "trailing garbage"...)
+		}
+	} else if c.Damage == "tail" {
+		file = append(file, 'x')
+	}
+	code, out, stderr := runCLIPaced(dir, env, file, c.Pieces, filepath.Join(bin, "age"), "-d", "-i", "key.txt")
+	if code < -1 {
+		st.Label("inconclusive-timeout")
+		return nil
+	}
+	if c.Damage == "" {
+		if code != 0 || !bytes.Equal(out, plain) {
+			return pbt.Failf("C12/result-depends-on-schedule", "age -d of a valid %s file of %d plaintext bytes arriving on standard input in pieces %v: exit %d (%s), %d bytes of output", map[bool]string{true: "armored", false: "binary"}[c.Armor], len(plain), c.Pieces, code, trunc([]byte(stderr)), len(out))
+		}
+		return nil
+	}
+	if code == 0 || len(out) > len(plain) || !bytes.Equal(out, plain[:len(out)]) {
+		return pbt.Failf("C12/result-depends-on-schedule", "age -d of a damaged file (%s) arriving in pieces %v: exit %d, %d bytes of output", c.Damage, c.Pieces, code, len(out))
+	}
+	return nil
+}
+
 func TestC12(t *testing.T) {
 	s := pbt.Start(t, "C12")
 	defer s.Finish()
@@ -427,9 +608,48 @@ func TestC12(t *testing.T) {
 		if rapid.Bool().Draw(t, "multi") {
 			l = rapid.SampledFrom([]int{chunk, chunk + 1, 2 * chunk, 2*chunk + 1, 3 * chunk, 150000}).Draw(t, "multiLen")
 		}
-		return c12Enc{TapeSeed: rapid.Uint64().Draw(t, "tape"), PlainLen: l, Recs: c05GenRecs(t), Segs1: genSegs(t, l), Segs2: genSegs(t, l), Armor: rapid.IntRange(0, 3).Draw(t, "armor") == 0, Between: rapid.IntRange(0, 2).Draw(t, "between") == 0}
+		return c12Enc{TapeSeed: rapid.Uint64().Draw(t, "tape"), PlainLen: l, Recs: c05GenRecs(t), Segs1: genSegs(t, l), Segs2: genSegs(t, l), Armor: rapid.IntRange(0, 3).Draw(t, "armor") == 0, Between: rapid.IntRange(0, 2).Draw(t, "between") == 0, CopyFrom: genDelivery(t)}
+	}, enc)
+	pbt.Each(s, "encrypt-segmentation", func(yield func(c12Enc)) {
+		n := 0
+		for _, l := range []int{0, 1, chunk - 1, chunk, chunk + 1, 2 * chunk, 2*chunk + 1} {
+			for _, d := range []hx.Delivery{{Mode: "dataeof"}, {Mode: "dataeof", Pieces: []int{chunk}}, {Mode: "dataeof", Pieces: []int{chunk - 1}}, {Mode: "one"}, {Mode: "pieces", Pieces: []int{chunk + 1}}, {Mode: "whole"}} {
+				if d.Mode == "one" && l > chunk+1 {
+					continue
+				}
+				for _, armored := range []bool{false, true} {
+					if s.Mine(n) {
+						yield(c12Enc{TapeSeed: 77, PlainLen: l, Recs: []hx.RecSpec{{Kind: "x25519", Idx: 0}}, Armor: armored, CopyFrom: d})
+					}
+					n++
+				}
+			}
+		}
+		s.St.Exhaust("encryption fed by io.Copy: plaintext lengths around one and two chunks x sources delivering data with end-of-file in one call, in chunk-sized and odd pieces, byte by byte", int64(n))
 	}, enc)
 
+	pbt.Each(s, "cli-delivery", func(yield func(c12CLI)) {
+		n := 0
+		scheds := [][]int{nil, {1, 1, 1, 1, 1, 1, 1, 1, 1, 1, 1, 1, 1, 1, 1, 1, 1, 1, 1, 1, 1, 1, 1, 1, 1, 1, 1, 1, 1, 1, 1, 1, 1, 1, 1, 1, 1, 1, 1, 1}, {7, 7, 7, 7, 7, 7}, {21}, {22}, {23}, {25}, {30}, {33}, {34}, {35}, {100}, {200, 1, 4096}}
+		for _, armored := range []bool{true, false} {
+			for _, l := range []int{0, 100, chunk + 1} {
+				for si, sc := range scheds {
+					dmg := []string{"", "", "trunc", "tail"}[(si+l)%4]
+					if s.Mine(n) {
+						yield(c12CLI{PlainLen: l, Armor: armored, Damage: dmg, Pieces: sc})
+					}
+					n++
+				}
+			}
+			for _, sc := range [][]int{{1, 1, 1}, {chunk}, {chunk - 1, 2}} {
+				if s.Mine(n) {
+					yield(c12CLI{PlainLen: chunk + 1, Armor: armored, Pieces: sc, Encrypt: true})
+				}
+				n++
+			}
+		}
+		s.St.Exhaust("the age command reading standard input that arrives in pieces (byte by byte, 7s, a first piece of 21..35, 100, 200 bytes followed by a pause): armored and binary, valid and damaged inputs, and encryption", int64(n))
+	}, func(c c12CLI) error { return c12CheckCLI(c, s.St) })
 	pbt.Each(s, "pipe", func(yield func(c12Pipe)) {
 		n := 0
 		for _, a := range []bool{false, true} {
